@@ -81,8 +81,9 @@ for t, c in FT.items():
     U.add('qc4_' + t, [(c, 16)], [(c, 4), (c, 4)], 'auto m=ldm<4,4,%s>(a); stq(o, glm::quat_cast(m)); stq(o2, glm::qua<%s>(m));' % (c, c))
     U.add('pyr_' + t, [(c, 4)], [(c, 3), (c, 3)], 'auto q=%s(a); o[0]=glm::pitch(q); o[1]=glm::yaw(q); o[2]=glm::roll(q); stv(o2, glm::eulerAngles(q));' % Q)
 UW = U.clone('c04w', defines=['GLM_FORCE_QUAT_DATA_WXYZ'])
-UNITS = {'xyzw': U, 'wxyz': UW}
-def units(tier): return [U, UW]
+UX = U.clone('c04x', defines=['GLM_FORCE_QUAT_DATA_XYZW'])        # documented in manual.md 2.21: switches the argument order of the four-scalar constructor (x, y, z, w); memory order stays x,y,z,w
+UNITS = {'xyzw': U, 'wxyz': UW, 'xyzwctor': UX}
+def units(tier): return [U, UW, UX]
 
 # ------------------------------------------------------------------------------------------------ specification side (pure mathematics)
 def qmul(p, q):
@@ -852,8 +853,9 @@ def job_ctor(lay, t):
     Un = UNITS[lay]
     def run(S):
         def spec(i, o):
-            a = i[0]; idx = [1, 2, 3, 0] if lay == 'xyzw' else [0, 1, 2, 3]
-            return ([('qua(w,x,y,z)[%d]' % k, o[0][k].bits == a[k]) for k in range(4)] + [('qua::wxyz[%d]' % k, o[1][k].bits == a[k]) for k in range(4)]
+            a = i[0]; idx = [0, 1, 2, 3] if lay == 'wxyz' else [1, 2, 3, 0]
+            arg = [3, 0, 1, 2] if lay == 'xyzwctor' else [0, 1, 2, 3]          # GLM_FORCE_QUAT_DATA_XYZW: the four-scalar constructor takes (x, y, z, w) (manual.md 2.21); named results travel as [w,x,y,z]
+            return ([('qua(%s)[%d]' % ('x,y,z,w' if lay == 'xyzwctor' else 'w,x,y,z', k), o[0][k].bits == a[arg[k]]) for k in range(4)] + [('qua::wxyz[%d]' % k, o[1][k].bits == a[k]) for k in range(4)]
                     + [('qua(s,vec3)[%d]' % k, o[2][k].bits == a[k]) for k in range(4)] + [('operator[%d]' % k, o[3][k].bits == a[idx[k]]) for k in range(4)])
         S.check_fn(Un, 'ctor_' + t, spec, None, mode='fp', bounds='all bit patterns; components travel as [w,x,y,z]; operator[] follows the documented member order of the layout')
     return run
